@@ -43,6 +43,9 @@ func (v *VVar) Valid(src interface{}) error {
 	}
 
 	reflectValue := RemoveValuePtr(reflect.ValueOf(src))
+	if !reflectValue.IsValid() { // 指针为 nil, 如: (*int)(nil)
+		return errors.New("src \"" + reflect.TypeOf(src).String() + "\" is nil")
+	}
 	ty := reflectValue.Type()
 	supportType := false
 
